@@ -64,6 +64,11 @@ impl<'a> E3Ctx<'a> {
 
 pub const C09: u32 = 1 << 9;
 
+thread_local! {
+    /// the engine query in progress on this worker thread (survives the unwinding of whichever context set it)
+    pub static E3_QUERY: std::cell::Cell<&'static str> = std::cell::Cell::new("");
+}
+
 /// Visits a setup node: `gold` places its `k`-th piece (0-based) next; `left` = remaining complement of the mover.
 fn node(ctx: &mut E3Ctx, gs: &GameState, gold: bool, k: usize, left: &mut [u8; 6], depth: usize) {
     if report::stopped() {
@@ -71,8 +76,10 @@ fn node(ctx: &mut E3Ctx, gs: &GameState, gold: bool, k: usize, left: &mut [u8; 6
     }
     ctx.stats.states += 1;
     ctx.query = "valid_actions";
+    E3_QUERY.with(|q| q.set("valid_actions"));
     let va = gs.valid_actions();
     ctx.query = "";
+    E3_QUERY.with(|q| q.set(""));
     let before = raw(gs.piece_board());
 
     if ctx.on(C09) {
@@ -99,8 +106,10 @@ fn node(ctx: &mut E3Ctx, gs: &GameState, gold: bool, k: usize, left: &mut [u8; 6
     }
     if ctx.on(C07) || ctx.on(C04) {
         ctx.query = "is_terminal";
+    E3_QUERY.with(|q| q.set("is_terminal"));
         let t = gs.is_terminal();
         ctx.query = "";
+    E3_QUERY.with(|q| q.set(""));
         if t.is_some() {
             ctx.fail(None, "a result is reported during setup", format!("{:?}", t), "None".into());
         }
@@ -108,6 +117,7 @@ fn node(ctx: &mut E3Ctx, gs: &GameState, gold: bool, k: usize, left: &mut [u8; 6
             ctx.fail(None, "C07: no result reported but no placement offered", "empty".into(), "non-empty".into());
         }
         ctx.query = "has_move";
+    E3_QUERY.with(|q| q.set("has_move"));
         if gs.has_move(gs.piece_board()).is_some() != va.is_empty() {
             ctx.fail(None, "C07: has_move disagrees with the offered list in setup", String::new(), String::new());
         }
@@ -115,9 +125,11 @@ fn node(ctx: &mut E3Ctx, gs: &GameState, gold: bool, k: usize, left: &mut [u8; 6
             ctx.fail(None, "C07: can_pass true in setup although no pass is offered", "true".into(), "false".into());
         }
         ctx.query = "";
+    E3_QUERY.with(|q| q.set(""));
     }
     if ctx.on(C19) {
         ctx.query = "queries";
+    E3_QUERY.with(|q| q.set("queries"));
         let _ = gs.valid_actions_no_rep();
         let _ = gs.is_terminal();
         let _ = gs.can_pass(true);
@@ -131,6 +143,7 @@ fn node(ctx: &mut E3Ctx, gs: &GameState, gold: bool, k: usize, left: &mut [u8; 6
             let _ = gs.trapped_animal_for_action(a);
         }
         ctx.query = "";
+    E3_QUERY.with(|q| q.set(""));
         ctx.stats.add("c19_queries", 7 + va.len() as u64);
     }
     if ctx.on(C10) {
@@ -154,16 +167,20 @@ fn node(ctx: &mut E3Ctx, gs: &GameState, gold: bool, k: usize, left: &mut [u8; 6
         }
         if ctx.on(C13) {
             ctx.query = "trapped_animal_for_action";
+    E3_QUERY.with(|q| q.set("trapped_animal_for_action"));
             let pv = gs.trapped_animal_for_action(a);
             ctx.query = "";
+    E3_QUERY.with(|q| q.set(""));
             if pv.is_some() {
                 ctx.fail(Some(a), "C13: capture preview for a placement", format!("{:?}", pv), "None".into());
             }
             ctx.stats.add("c13_pairs", 1);
         }
         ctx.query = "take_action";
+    E3_QUERY.with(|q| q.set("take_action"));
         let t = gs.take_action(a);
         ctx.query = "";
+    E3_QUERY.with(|q| q.set(""));
         ctx.stats.transitions += 1;
         let after = raw(t.piece_board());
         let sq = placement_square(gold, k);
@@ -369,7 +386,7 @@ pub fn run_trie(prop: &str, checks: u32, prefix_text: &str, max_depth: usize, la
                 node(&mut ctx, &gs, gold, k, &mut left, job.len());
             }));
             if r.is_err() {
-                let q = ctx.query;
+                let q = E3_QUERY.with(|q| q.get());
                 ctx.fail(None, &format!("panic in the engine during `{}` in setup", q), last_panic(), "returns normally".into());
             }
             ctx.stats.roots = 1;
@@ -430,7 +447,7 @@ pub fn run_product(prop: &str, checks: u32, depth: usize) -> FamilyResult {
                 node(&mut ctx, &gs, false, 0, &mut left, 0);
             }));
             if r.is_err() {
-                let q = ctx.query;
+                let q = E3_QUERY.with(|q| q.get());
                 ctx.fail(None, &format!("panic in the engine during `{}` in setup", q), last_panic(), "returns normally".into());
             }
             ctx.stats.roots = 1;
